@@ -196,6 +196,7 @@ type Obligation struct {
 	PC     []*Term
 	Goal   *Term
 	ShortTimeout bool
+	QFTimedOut bool // the ground-instantiated first attempt hit its time limit
 	FirstStatus string // status of the first attempt when the obligation was retried with a larger budget
 	Cover  bool // vacuity check: PC (and Goal) must be satisfiable
 	Alts   [][]*Term // cover.any: alternative path conditions, one of which must be satisfiable
